@@ -151,6 +151,14 @@ func TestC14(t *testing.T) {
 		start(client)
 		o.Pid = l.pid()
 		if o.StartErr != "" || !o.StartReturned {
+			if o.StartReturned {
+				// a refused Start stays refused when the same client is asked again
+				within(30*time.Second, func() {
+					_, err2 := client.Start()
+					o.RetryOK, o.RetryErr = err2 == nil, errStr(err2)
+					o.RetryProtocol = string(client.Protocol())
+				})
+			}
 			o.StateAfterErr = waitState(o.Pid, 5*time.Second, "gone", "Z")
 			if p.Launch == "reattach" {
 				o.StateAfterErr = "n/a"
